@@ -36,6 +36,23 @@ CHECKS['C15'] = dict(
     technique='exhaustive sequence enumeration + Hypothesis sequences vs '
               'reference interpreter (model-based), CDF round trip')
 
+CHECKS['C13'] = dict(
+    category='exploration', design_ref='DESIGN.md §14 (C13)',
+    text='For each Hypothesis-generated clustered point set every operation '
+         'sequence up to length 4 (quick) / 6 (thorough) over {split, '
+         'split(allow_overlap=False), trim(1.01), trim(), sample(137)} is '
+         'executed by a DFS with deep copies, and after every operation the '
+         'per-ellipsoid records are compared with a reference model '
+         '(alignment, volume record, flags, row multiset, children >= '
+         'minimum, volume non-increase, refused => unchanged, no raise). '
+         'Exhaustive over the operation alphabet per point set; point sets '
+         'are sampled.',
+    note='Point sets in general position only; records read through the '
+         'documented attributes of Union; subtrees below a refused '
+         'no-change operation are pruned.',
+    technique='exhaustive operation-sequence enumeration (DFS with state '
+              'copies) on generated inputs vs reference model')
+
 NOT_YET = {}
 
 
